@@ -48,6 +48,9 @@ def run(ctx: Ctx):
     ctx.guard(r)
   from mlmverif.props import c18, c19
   from mlmverif.props import c18 as _c18
+  ctx.include('R-C08-25', '"the emitted stream equals evaluating the operators one record at a time ... not silently mis-routed": an output'
+              ' routed to a nested path below a field that HOLDS None fails like below any other leaf — the setter does not'
+              ' take a stored None for a missing key (R-C18-20)', _c18.r20, min_instances=1)
   ctx.include('R-C08-22', '"route data exactly as a reference interpreter": an output routed to an Index of a tuple record rebuilds that'
               ' tuple from a list of its items with the builtin `tuple` (R-C18-16) — rebuilding with the record\'s own type'
               ' fails for named-tuple records / fields at run time', _c18.r16, min_instances=1)
@@ -988,6 +991,9 @@ from mlmverif.selfcheck import B, OK  # noqa: E402
 _F = 'chainables/tree_fns.py'
 _T = 'chainables/transform.py'
 VARIANTS = [
+    B('none-parent-taken-for-a-missing-key', 'chainables/tree.py',
+      "          result[key] = self._set_by_path(\n              result.get(key, NullMap()), Key(rest_keys), value, in_place\n          )",
+      "          if (child := result.get(key)) is None:\n            child = NullMap()\n          result[key] = self._set_by_path(\n              child, Key(rest_keys), value, in_place\n          )", 'R-C08-25'),
     B('revert-skip-tracked-as-an-output-key', 'chainables/transform.py',
       "    # A skipped output is written nowhere, SKIP is a placeholder and no key.\n    result.discard(tree.Key.SKIP)\n", "", 'R-C08-24'),
     B('revert-repeated-key-within-one-assign-accepted', 'chainables/transform.py',
